@@ -343,3 +343,44 @@ CONTRACTS[F + "get_midi_data"] = dict(
               "for i in range(len(self.tracks))])" % (_OFF, _OFF))],
     split=_FILE_SPLIT[:4], split_is_domain=True, properties=["C16"], battery="midifile",
     notes="domain: files of 0..3 tracks with arbitrary data (empty or not)")
+
+# ---------------------------------------------------------------- MIDI instruments: bank select, then program change
+_c("select_bank", params={"self": "MidiTrack", "channel": "int", "bank": "int"}, returns="bytes", modifies=[], pure=True,
+   ensures=[("pending-delta-time-first", "result[:%s] == self.delta_time" % DT),
+            ("controller-0-bank-select-on-the-channel", "result[%s] == channel + 16 * 11 and result[%s + 1] == 0 and "
+                                                        "result[%s + 2] == bank" % (DT, DT, DT)),
+            ("length", "len(result) == %s + 3" % DT)],
+   raises={"AssertionError": "channel < 0 or channel > 15 or bank < 0 or bank > 127"}, battery="track_2ints")
+_SI = "len(old_data) + len(old_dt)"
+_c("set_instrument",
+   params={"self": "MidiTrack", "channel": "int", "instr": "int", "bank": "int"}, returns="None", old=_OLD,
+   ensures=[("earlier-data-untouched", "self.track_data[:len(old_data)] == old_data"),
+            ("pending-delta-time-first", "self.track_data[len(old_data):%s] == old_dt" % _SI),
+            ("bank-select-controller-0", "self.track_data[%s] == channel + 16 * 11 and self.track_data[%s + 1] == 0 and "
+                                         "self.track_data[%s + 2] == bank" % (_SI, _SI, _SI)),
+            ("then-at-delta-0-the-program-change", "self.track_data[%s + 3] == 0 and self.track_data[%s + 4] == channel + 16 * 12 "
+                                                   "and self.track_data[%s + 5] == instr" % (_SI, _SI, _SI)),
+            ("exactly-two-events", "len(self.track_data) == %s + 6" % _SI),
+            ("delta-time-left-at-0", "self.delta_time == b'\\x00'")],
+   raises={"AssertionError": "channel < 0 or channel > 15 or bank < 0 or bank > 127 or instr < 0 or instr > 127"},
+   modifies=["param:self"], havoc={"self.track_data": "bytes", "self.delta_time": "bytes"}, battery="track_3ints_b")
+# the first note of a track with a MIDI instrument: bank select and program change on THE NOTE'S channel, then the note
+_PN_IC = dict(name="with-instrument-change", **dict(
+   params={"self": "MidiTrack", "note": "Note"},
+   requires=[("valid-note", _NOTE_RANGE), ("a-pending-instrument-change", "self.change_instrument"),
+             ("in-range", "0 <= note.velocity and note.velocity <= 127 and 0 <= pitch(note) + 12 and pitch(note) + 12 <= 127 "
+                          "and 0 <= self.instrument and self.instrument <= 127")],
+   returns="None", old=_OLD,
+   ensures=[("earlier-data-untouched", "self.track_data[:len(old_data)] == old_data"),
+            ("pending-delta-time-first", "self.track_data[len(old_data):%s] == old_dt" % _SI),
+            ("bank-select-1-on-the-notes-channel", "self.track_data[%s] == note.channel + 16 * 11 and "
+                                                   "self.track_data[%s + 1] == 0 and self.track_data[%s + 2] == 1" % (_SI, _SI, _SI)),
+            ("program-change-to-the-tracks-instrument", "self.track_data[%s + 3] == 0 and self.track_data[%s + 4] == note.channel + 16 * 12 "
+                                                        "and self.track_data[%s + 5] == self.instrument" % (_SI, _SI, _SI)),
+            ("then-at-delta-0-the-note-on", "self.track_data[%s + 6] == 0 and self.track_data[%s + 7] == 144 + note.channel and "
+                                            "self.track_data[%s + 8] == pitch(note) + 12 and self.track_data[%s + 9] == note.velocity"
+             % (_SI, _SI, _SI, _SI)),
+            ("exactly-three-events", "len(self.track_data) == %s + 10" % _SI),
+            ("change-done", "self.change_instrument == False")],
+   modifies=["param:self"], havoc={"self.track_data": "bytes", "self.delta_time": "bytes", "self.change_instrument": "bool"}))
+CONTRACTS[M + "play_Note"]["variants"] = [_PN_IC]
